@@ -72,11 +72,20 @@ def gen_filter(rng, pgns_in_history):
 
 
 def gen(rng, idx, tier):
-    ev = bustraffic.history(rng, multi_def_bias=True)
+    ev = bustraffic.history(rng, multi_def_bias=True, shared_names=rng.random() < 0.4)
     pgns = sorted({e["f"][0] for e in ev})
     fmt = rng.choice(["ebyte", "usb", "yd", "plain"])
     bnm = rng.random() < 0.3
     listeners = [gen_filter(rng, pgns) for _ in range(rng.randrange(3, 7))]
+    # some listeners are built from the *same* configuration object (one application config, several decoders)
+    share = {}
+    if rng.random() < 0.4:
+        j = rng.randrange(len(listeners))
+        listeners.append(dict(listeners[j]))
+        share[str(len(listeners) - 1)] = j
+        if rng.random() < 0.5:
+            listeners[j] = {"exclude_pgns": [60928] + [p for p in rng.sample(pgns, min(len(pgns), 2)) if p != 60928]}
+            listeners[-1] = dict(listeners[j])
     # wall clock: mostly a dense history, sometimes with long silences (minutes) between bursts
     t = rng.choice([0.0, 0.0, 30.0, 590.0, 700.0])
     pace = rng.choice(["dense", "dense", "gappy", "slow"])
@@ -88,7 +97,7 @@ def gen(rng, idx, tier):
         else:
             t += rng.uniform(0.0, 0.2)
         e["at"] = round(t, 3)
-    return {"format": fmt, "build_network_map": bnm, "events": ev, "listeners": listeners}
+    return {"format": fmt, "build_network_map": bnm, "events": ev, "listeners": listeners, "share": share}
 
 
 def permitted(m, cfg):
@@ -115,7 +124,17 @@ def execute(plan):
     v = []
     try:
         un = NMEA2000Decoder(build_network_map=bnm)
-        ls = [NMEA2000Decoder(build_network_map=bnm, **{k: list(x) for k, x in cfg.items()}) for cfg in plan["listeners"]]
+        share = plan.get("share") or {}
+        objs = []
+        ls = []
+        for li, cfg in enumerate(plan["listeners"]):
+            j = share.get(str(li))
+            if j is not None and j < len(objs) and plan["listeners"][j] == cfg:
+                kw = objs[j]                 # the very same list objects as listener j
+            else:
+                kw = {k: list(x) for k, x in cfg.items()}
+            objs.append(kw)
+            ls.append(NMEA2000Decoder(build_network_map=bnm, **kw))
     except ValueError:
         return {"violations": [], "digest": "invalid", "stats": {"invalid_plan": 1}, "nontrivial": False, "vtime": 0.0}
     st = {"frames": 0, "permitted": 0, "suppressed": 0, "claims_suppressed": 0}
